@@ -1548,7 +1548,7 @@ impl Property for C10 {
         // ---- random streams x random fault plans -----------------------------------------------
         {
             let strat = arb_read_case().prop_filter("reader_percent_eof", |c| !hazardous(c));
-            ctx.run_strategy("read-fault-random", 1, ctx.tier.pick(40_000, 600_000), &strat, |c| match c {
+            ctx.run_strategy("read-fault-random", 1, ctx.tier.pick(80_000, 600_000), &strat, |c| match c {
                 Case::Read { doc, target, entry, fault: ReadFault { at: FaultAt::Byte(k), .. }, .. } => prefix_complete(doc, *k, *target, *entry),
                 _ => false,
             });
